@@ -30,6 +30,7 @@ def run(ctx, info):
     ctx.ties = {k: st.get(k) for k in ("gen_optimize_schema", "gen_population_refine", "gen_result_refine", "gen_best_agents", "gen_special_agents")}
     n_hist = 400 if ctx.quick else 10000
     items, metas, res, kinds = scripted.correspondence(ctx, n_hist, 0, [("best", scripted.oracle_c03)])
+    scripted.long_runs(ctx, [("best", scripted.oracle_c03)])
     distinct = len({json.dumps(m, sort_keys=True) for m in metas})
     ctx.add_cover(len(items), distinct,
                   "scripted histories with cost alphabets rich in ties, negative costs, +-inf and best costs that reappear on another agent in "
@@ -76,6 +77,8 @@ def run(ctx, info):
 def replay(rep):
     print(json.dumps({k: v for k, v in rep.items() if k != "replay"}, indent=1))
     m = rep["replay"]
+    if m.get("kind") == "long-history":
+        return scripted.replay_long(m, [("best", scripted.oracle_c03)])
     if m.get("kind") == "history":
         h = scripted.meta_hist(m["history"])
         _, obs = scripted.run_real(h)
